@@ -60,9 +60,11 @@ func (m *UInt64Map[V]) VerifC16Stored() int {
 	return n
 }
 
-// VerifC16Reachable is the number of DISTINCT stored keys that the table's own
-// Get finds. A ghost (stored, probe chain broken) or a duplicate slot is stored
-// but not counted here.
+// VerifC16Reachable is the number of stored slots that a lookup of their key
+// arrives at: walking the probe sequence from the key's primary index reaches
+// this very slot before an empty slot or another slot holding the same key
+// (plus the zero key if Get finds it). A ghost (probe chain broken) or a
+// duplicate slot is stored but not counted here. Read-only, no allocation.
 func (m *UInt64Map[V]) VerifC16Reachable() int {
 	n := 0
 	if m.hasZeroKey {
@@ -70,18 +72,23 @@ func (m *UInt64Map[V]) VerifC16Reachable() int {
 			n++
 		}
 	}
-	seen := make(map[uint64]struct{}, m.size)
 	for i := range m.data {
 		k := m.data[i].Key
 		if k == 0 {
 			continue
 		}
-		if _, dup := seen[k]; dup {
-			continue
-		}
-		seen[k] = struct{}{}
-		if _, ok := m.Get(k); ok {
-			n++
+		idx := m.primaryIndex(k)
+		for step := 0; step < len(m.data); step++ {
+			if idx == i {
+				if _, ok := m.Get(k); ok {
+					n++
+				}
+				break
+			}
+			if kk := m.data[idx].Key; kk == 0 || kk == k {
+				break
+			}
+			idx = (idx + 1) & m.mask
 		}
 	}
 	return n
